@@ -57,6 +57,15 @@ Theorem c19_doctor_reports_presence_and_source_only : forall (w : world) (d : do
 Proof. exact doctor_presence_and_source_only. Qed.
 Print Assumptions c19_doctor_reports_presence_and_source_only.
 
+(* Where the secret DOES go (session.rs: bearer_auth / request.header on the outgoing request): every request of a
+   run carries exactly the configured endpoint, key and header list — and by c19_noninterference nothing else does. *)
+Theorem c19_secret_attached_to_requests_only : forall (fuel : nat) (sc : script) (thread : bool) (w : world)
+                                                      (prompt : str) (initial : list item) (c : orcfg),
+  (if thread then thread_cfg w else session_cfg w) = Some c ->
+  Forall (sent_ok c) (out_sent (run fuel sc thread w prompt initial)).
+Proof. exact secret_attached_to_requests_only. Qed.
+Print Assumptions c19_secret_attached_to_requests_only.
+
 (* T1 (regenerated from /repo on every run by tools/gen/secret_uses.py): every syntactic use of a
    secret-bearing value in crates/ripd/src and crates/rip-cli/src (non-test code) is of a kind of flow the
    model has — declaration, copy between the secret-bearing records, resolution, presence test,
